@@ -98,6 +98,7 @@ type exec struct {
 	knownOn  string // active known-finding fence id
 
 	unknownViol int
+	opaqueQ     int
 	violations []Violation
 	witnesses  []Witness
 	undecided  []string // reasons
